@@ -1,6 +1,7 @@
 package props
 
 import (
+	"context"
 	"crypto/tls"
 	"encoding/json"
 	"fmt"
@@ -135,8 +136,16 @@ func (b *browser) do(method, rawurl string) (webResp, error) {
 	if b.LocalIP != "" {
 		d.LocalAddr = &net.TCPAddr{IP: net.ParseIP(b.LocalIP)}
 	}
+	dial := d.DialContext
+	if strings.Contains(b.LocalIP, ":") {
+		// an IPv6 client: same gateway (it listens on both families), same URL (so that the cookie jar applies), reached over ::1
+		dial = func(ctx context.Context, network, addr string) (net.Conn, error) {
+			_, port, _ := net.SplitHostPort(addr)
+			return d.DialContext(ctx, "tcp6", net.JoinHostPort("::1", port))
+		}
+	}
 	cl := &http.Client{Timeout: 20 * time.Second, Jar: b.Jar,
-		Transport:     &http.Transport{DialContext: d.DialContext, DisableKeepAlives: true, TLSClientConfig: &tls.Config{InsecureSkipVerify: true}},
+		Transport:     &http.Transport{DialContext: dial, DisableKeepAlives: true, TLSClientConfig: &tls.Config{InsecureSkipVerify: true}},
 		CheckRedirect: func(*http.Request, []*http.Request) error { return http.ErrUseLastResponse }}
 	req, err := http.NewRequest(method, rawurl, nil)
 	if err != nil {
